@@ -147,7 +147,7 @@ func KeyLen(g uint16) int {
 
 // ---- generators --------------------------------------------------------------------------------
 
-var knownCiphers = []uint16{0x1301, 0x1302, 0x1303, 0xc02b, 0xc02f, 0xc02c, 0xc030, 0xcca9, 0xcca8, 0xc013, 0xc014, 0xc009, 0xc00a, 0x009c, 0x009d, 0x002f, 0x0035, 0x000a, 0x00ff, 0x5600, 0xc027, 0xc023, 0x003c}
+var knownCiphers = []uint16{0x1301, 0x1302, 0x1303, 0xc02b, 0xc02f, 0xc02c, 0xc030, 0xcca9, 0xcca8, 0xc013, 0xc014, 0xc009, 0xc00a, 0x009c, 0x009d, 0x002f, 0x0035, 0x000a, 0x00ff, 0xc027, 0xc023, 0x003c}
 
 var knownGroups = []uint16{29, 23, 24, 25, 256, 257, 30, 0x6399, 0x11ec}
 var knownSigAlgs = []uint16{0x0403, 0x0804, 0x0401, 0x0503, 0x0805, 0x0501, 0x0806, 0x0601, 0x0203, 0x0201, 0x0807, 0x0808, 0x0603}
@@ -252,7 +252,18 @@ func Gen(t *rapid.T, o Options) (Spec, []string) {
 		minC, maxC = 100, 130
 	}
 	var shape string
-	s.Ciphers, shape = shapedList(t, "ciphers", knownCiphers, must, minC, maxC, true)
+	pool := knownCiphers
+	if o.Handshake {
+		// CBC ECDHE suites are usable by crypto/tls but black-listed for HTTP/2 (the proxy then
+		// rejects the connection with INADEQUATE_SECURITY): keep them out of handshake hellos
+		pool = nil
+		for _, c := range knownCiphers {
+			if c != 0xc013 && c != 0xc014 && c != 0xc009 && c != 0xc00a {
+				pool = append(pool, c)
+			}
+		}
+	}
+	s.Ciphers, shape = shapedList(t, "ciphers", pool, must, minC, maxC, !o.Handshake)
 	cl = append(cl, "ciphers:grease-"+shape, "ciphers:n="+nClass(countNonGrease(s.Ciphers)))
 
 	// extensions
@@ -326,7 +337,13 @@ func Gen(t *rapid.T, o Options) (Spec, []string) {
 	}
 	if o.Handshake || rapid.IntRange(0, 5).Draw(t, "groups") != 0 {
 		minG := 1
-		g, gs := shapedList(t, "groups", knownGroups, gm, minG, 6, !o.Handshake)
+		gpool := knownGroups
+		if o.Handshake {
+			// hybrid post-quantum groups make crypto/tls answer with a HelloRetryRequest that utls
+			// cannot follow; they stay in the pure layer only
+			gpool = []uint16{29, 23, 24, 25, 256, 257, 30}
+		}
+		g, gs := shapedList(t, "groups", gpool, gm, minG, 6, !o.Handshake)
 		exts = append(exts, Ext{Kind: "groups", U16: g})
 		cl = append(cl, "groups:grease-"+gs, "groups:n="+nClass(countNonGrease(g)))
 	} else {
@@ -356,7 +373,13 @@ func Gen(t *rapid.T, o Options) (Spec, []string) {
 		sm = []uint16{0x0403, 0x0804}
 	}
 	if o.Handshake || rapid.IntRange(0, 4).Draw(t, "sig") != 0 {
-		sa, ss := shapedList(t, "sigalgs", knownSigAlgs, sm, 1, 10, !o.Handshake)
+		spool := knownSigAlgs
+		if o.Handshake {
+			// in TLS 1.2 crypto/tls may sign with any ECDSA scheme the client lists first, which utls
+			// then refuses for a P-256 key: offer only the P-256 ECDSA scheme next to the RSA ones
+			spool = []uint16{0x0403, 0x0804, 0x0401, 0x0805, 0x0501, 0x0806, 0x0601, 0x0201, 0x0807, 0x0808}
+		}
+		sa, ss := shapedList(t, "sigalgs", spool, sm, 1, 10, !o.Handshake)
 		exts = append(exts, Ext{Kind: "sigalgs", U16: sa})
 		cl = append(cl, "sigalgs:grease-"+ss)
 	} else {
